@@ -50,10 +50,29 @@ pub fn c09_case() -> impl Strategy<Value = C09Case> {
             prop::collection::vec(simgen::knobs(simgen::KnobRanges { max_sms: 1, max_pdos: 2, max_entries: 2, ..Default::default() }), 0..=n_max),
             prop::collection::vec(0u8..3, n_max),
             prop_oneof![3 => Just(0u8), 1 => Just(1u8), 1 => Just(2u8)],
+            // racks of identical terminals: same model as the upstream neighbour, same name or
+            // not, and devices without a name string
+            prop::collection::vec((prop::bool::weighted(0.3), any::<bool>(), prop::bool::weighted(0.15)), n_max),
         )
-            .prop_map(move |(devices, mut assign, spread)| {
+            .prop_map(move |(mut devices, mut assign, spread, family)| {
                 if spread == 0 {
                     assign.iter_mut().for_each(|a| *a = 0);
+                }
+
+                for i in 0..devices.len() {
+                    let (same_model, same_name, unnamed) = family[i];
+
+                    devices[i].unnamed = unnamed;
+
+                    if same_model && i > 0 {
+                        devices[i].vendor = devices[i - 1].vendor;
+                        devices[i].product = devices[i - 1].product;
+                        devices[i].revision = devices[i - 1].revision;
+
+                        if same_name {
+                            devices[i].name = devices[i - 1].name.clone();
+                        }
+                    }
                 }
 
                 C09Case { devices, max, group_cap, assign, static_sync, echo_only }
@@ -182,7 +201,7 @@ pub fn run_c09(case: &C09Case, info: &mut CaseInfo) -> Result<(), Fail> {
 
     let too_many = effective_n > usize::from(case.max);
     let group_overflow = per_group.iter().any(|c| *c > usize::from(case.group_cap));
-    let name_too_long = case.devices.iter().take(effective_n).any(|d| d.name.len() > 64);
+    let name_too_long = case.devices.iter().take(effective_n).any(|d| !d.unnamed && d.name.len() > 64);
 
     let dup_stale = {
         let mut a: Vec<u16> = case.devices.iter().map(|d| d.stale_addr).collect();
@@ -195,6 +214,18 @@ pub fn run_c09(case: &C09Case, info: &mut CaseInfo) -> Result<(), Fail> {
 
     if dup_stale && effective_n >= 2 {
         info.label("duplicate-stale-addresses");
+    }
+
+    if (1..effective_n).any(|i| {
+        let (a, b) = (&case.devices[i - 1], &case.devices[i]);
+
+        (a.vendor, a.product, a.revision) == (b.vendor, b.product, b.revision)
+    }) {
+        info.label("adjacent-devices-of-the-same-model");
+    }
+
+    if case.devices.iter().take(effective_n).any(|d| d.unnamed) {
+        info.label("device-without-name-string");
     }
 
     if too_many {
@@ -252,7 +283,9 @@ pub fn run_c09(case: &C09Case, info: &mut CaseInfo) -> Result<(), Fail> {
                 let k = &case.devices[i];
 
                 ensure!(f.identity == (k.vendor, k.product, k.revision, k.serial), "C09|identity", "device {i}: identity {:x?} recorded, device has {:x?}", f.identity, (k.vendor, k.product, k.revision, k.serial));
-                ensure!(f.name == normalise_name(&k.name), "C09|name", "device {i}: name {:?} recorded, device has {:?}", f.name, normalise_name(&k.name));
+                let want_name = if k.unnamed { format!("manu. {:#010x}, device {:#010x}, serial {:#010x}", k.vendor, k.product, k.serial) } else { normalise_name(&k.name) };
+
+                ensure!(f.name == want_name, "C09|name", "device {i}: name {:?} recorded, device has {:?}", f.name, want_name);
                 ensure!(f.alias == k.alias, "C09|alias", "device {i}: alias {:#x} recorded, device has {:#x}", f.alias, k.alias);
                 ensure!(f.dc == dc_kind_code(k.dc), "C09|dc-capability", "device {i}: DC capability {} recorded, device has {:?}", f.dc, k.dc);
                 ensure!(f.group == usize::from(case.assign[i]) % 3, "C09|group", "device {i} placed in group {}, filter named {}", f.group, case.assign[i] % 3);
@@ -357,6 +390,9 @@ fn plain_device(station: u16, seed: u64) -> simnet::DeviceSpec {
         link_delay: 100,
         down_ports: 1,
         complete_access: false,
+        oversampling: vec![],
+        noncontig: false,
+        unnamed: false,
     };
 
     k.build(None, [true, true, false, false], simgen::accept_all(), simnet::UploadPolicy::Auto, vec![])
